@@ -325,6 +325,10 @@ func runMassive(m *Model, c massiveCase) []Diff {
 	}
 	var d []Diff
 	if (simple.err == nil) != (massive.err == nil) {
+		if massive.err == nil && wrongCharRow(doc, simple.err) {
+			noteKnown("c10.massive-accepts-wrong-indent-char")
+			return nil
+		}
 		d = append(d, Diff{What: "massive mode returns an error iff simple mode does", Real: "massive: " + classify(massive.err), Model: "simple: " + classify(simple.err)})
 	}
 	if simple.err == nil && massive.err == nil {
